@@ -14,25 +14,9 @@ def createAtomicOK {α} [BEq α] (failed : Bool) (before after : α) : Bool :=
 
 /-! ### C25: status visibility -/
 
-/-- what the history says about one status key: the latest accepted report (time, ttl)
-    since the last removal, if any -/
-abbrev Track := Option (Nat × Nat)
-
-/-- a report is accepted iff it carries no TTL or its entity exists -/
+/-- a report is accepted iff it carries no TTL or its entity exists
+    (the visibility specification itself is `Eru.Store.Status.Spec`) -/
 def accepted (ttl : Nat) (entityExists : Bool) : Bool := ttl == 0 || entityExists
-
-/-- visible at `now` iff there is such a report and (`ttl = 0` or `now < reportTime + ttl`) -/
-def specVisible (now : Nat) : Track → Bool
-  | some (t, ttl) => ttl == 0 || now < t + ttl
-  | none => false
-
-/-- remaining lifetime the history prescribes (0 = does not expire) -/
-def specRemaining (now : Nat) : Track → Nat
-  | some (t, ttl) => if ttl == 0 then 0 else t + ttl - now
-  | none => 0
-
-def Track.report (now ttl : Nat) (entityExists : Bool) (tr : Track) : Track :=
-  if accepted ttl entityExists then some (now, ttl) else tr
 
 /-! ### C13: deploy status counts -/
 
@@ -57,7 +41,7 @@ structure Cap where
   active : List Dep := []
   deriving DecidableEq, Repr
 
-def Cap.planned (c : Cap) : Int := c.active.foldl (fun a d => a + d.planned) 0
+def Cap.planned (c : Cap) : Int := (c.active.map (·.planned)).sum
 
 def Cap.start (c : Cap) (ident : String) (planned : Int) : Cap :=
   { c with active := c.active ++ [{ ident := ident, planned := planned, added := 0 }] }
@@ -66,7 +50,7 @@ def Cap.added (c : Cap) (ident : String) : Cap :=
   { c with active := c.active.map fun d => if d.ident == ident then { d with added := d.added + 1 } else d }
 
 def Cap.finish (c : Cap) (ident : String) : Cap :=
-  { prior := c.prior + (c.active.filter (·.ident == ident)).foldl (fun a d => a + d.added) 0,
+  { prior := c.prior + ((c.active.filter (·.ident == ident)).map (·.added)).sum,
     active := c.active.filter (·.ident != ident) }
 
 def Cap.plainAdd (c : Cap) : Cap := { c with prior := c.prior + 1 }
